@@ -3,7 +3,7 @@ from pyvc.verify import Post, Case, Equiv, NativeFacts
 from contracts import common, C15
 
 PROPERTY = 'C16'
-REF_MODULES = ['ref_reduce', 'h_ops']
+REF_MODULES = ['ref_reduce', 'h_ops', 'ref_registry', 'ref_extra', 'ref_core']
 
 
 def config(cfg):
@@ -40,6 +40,10 @@ def contracts():
                                    ref_vars=[('tree', 'dict'), ('acc', 'ref'), ('done', 'bool'), ('target', 'ref'), ('scope', 'chainmap'), ('recurse', 'ref')]),
                            2: dict(vars=[('acc', 'ref'), ('spec', 'ref'), ('target', 'ref'), ('scope', 'chainmap'), ('recurse', 'ref')],
                                    ref_vars=[('acc', 'ref'), ('spec', 'ref'), ('target', 'ref'), ('scope', 'chainmap'), ('recurse', 'ref')])}))
+    # how the items reach the aggregators: iteration of the target through the registry (shared with C15 / C13)
+    from contracts import C15, C13
+    cs += common.shared(C15, ['grouping.target_iter'])
+    cs += common.shared(C13, ['core.TargetRegistry.get_handler', 'core.TargetRegistry.get_type_map', 'core.TargetRegistry._get_closest_type'])
     return cs
 
 
